@@ -130,6 +130,14 @@ def harness(ctx):
                             ctx.fail("%s:better-than-perfect" % name, obs=oi, fcst=fi, actual=g, perfect=ps)
         if name in MD.AGG_AWARE:
             set_agg(m, "mean")
+        elif len(vo) >= 2:
+            # "-m <metric> does not support -agg": the driver still sets the attribute; the score must not depend on it
+            set_agg(m, "max")
+            kind2, got2, site2, _ = call_from_obs_fcst(m, oi, fi)
+            set_agg(m, "mean")
+            exp0 = MD.metric(name, vo, vf)
+            if kind2 == "ok" and exp0 is not None and not tol_equal(exp0, got2) and not (name == "leps" and tol_equal(MD.metric("leps-left", vo, vf), got2)):
+                ctx.fail("%s:depends-on-an-aggregator-it-does-not-support" % name, obs=oi, fcst=fi, expected=exp0, actual=float(got2))
     # within (needs an interval): the error bound classes below / equal / above the largest error
     w = get_metric("within")
     for (lo, hi, loe, hie) in ((float("-inf"), 1.0 * scale, False, False), (float("-inf"), 1.0 * scale, False, True),
